@@ -457,7 +457,12 @@ func (h *harness) doTruncate() bool {
 		h.lastMutSet(kind)
 		// logical evidence of a deadlock rather than slowness: the WAL's own lock cannot be taken any more
 		probe := make(chan struct{})
-		go func() { _ = h.w.FirstOffset(); _, _ = h.w.NewReader(-1); _ = h.w.AppendAsync(&proto.LogEntry{Offset: -5}); close(probe) }()
+		go func() {
+			_ = h.w.FirstOffset()
+			_, _ = h.w.NewReader(-1)
+			_ = h.w.AppendAsync(&proto.LogEntry{Offset: -5})
+			close(probe)
+		}()
 		select {
 		case <-probe:
 			h.r.Inconclusive("TruncateLog did not return within 20s")
